@@ -92,6 +92,7 @@ type Case struct {
 	SQLs     []string    `json:"sqls,omitempty"`
 	Oracle   []ReEntry   `json:"oracle,omitempty"`
 	Matchers [][]Matcher `json:"matchers,omitempty"` // of every vector selector of the expression
+	SelFps   [][]uint64  `json:"sel_fps,omitempty"`  // per selector: the stored metric series whose labels satisfy every matcher (labels.Matcher.Matches, absent label = "")
 	// phase B input / output
 	Answers   map[string][]Row `json:"answers,omitempty"`
 	Got       []OutSeries      `json:"got,omitempty"`
@@ -400,16 +401,38 @@ func run(c *Case) {
 					done[m.Value] = true
 					pat := "^(?:" + m.Value + ")$"
 					re, err := regexp.Compile(pat)
+					// the value as it is, searched: what ClickHouse match() answers should a statement carry it unwrapped
+					raw, rerr := regexp.Compile(m.Value)
 					for v := range vals {
 						e := ReEntry{P: pat, V: v}
 						if err == nil {
 							e.Search = re.MatchString(v)
 						}
 						c.Oracle = append(c.Oracle, e)
+						if rerr == nil && m.Value != pat {
+							c.Oracle = append(c.Oracle, ReEntry{P: m.Value, V: v, Search: raw.MatchString(v)})
+						}
 					}
 				}
 			}
 			c.Matchers = append(c.Matchers, ms)
+			fps := []uint64{}
+			for _, s := range c.DB.Series {
+				ok := s.Type == 2 || s.Type == 0
+				for _, m := range sel {
+					v := ""
+					for _, kv := range s.Labels {
+						if kv[0] == m.Name {
+							v = kv[1]
+						}
+					}
+					ok = ok && m.Matches(v)
+				}
+				if ok {
+					fps = append(fps, s.Fp)
+				}
+			}
+			c.SelFps = append(c.SelFps, fps)
 		}
 		sort.Slice(c.Oracle, func(i, j int) bool { return c.Oracle[i].P+"\x00"+c.Oracle[i].V < c.Oracle[j].P+"\x00"+c.Oracle[j].V })
 		return
